@@ -85,7 +85,8 @@ def compare_fields(c, interp, a, b, tag, skip=(), rp=None):
 
 
 def model_job(interp, c, case):
-    kind, initialized = case
+    kind, initialized = case[:2]
+    edited = len(case) > 2 and case[2]          # built in two stages with an initialisation in between
     T = interp.load("bioscrape.types")
     k = c.real("k", lo=0)
     args = dict(species=["A", "B", "C"],
@@ -95,6 +96,22 @@ def model_job(interp, c, case):
                 parameters=[("k1", k), ("th", 0.5)],
                 rules=[("assignment", {"equation": "C = A + k1*B"}, "repeated"), ("additive", {"equation": "C = A + B"}, "dt")],
                 initial_condition_dict={"A": 3, "B": 4}, initialize_model=initialized)
+    later = None
+    if edited:
+        later = dict(reactions=args["reactions"][1:], rules=args["rules"][1:])
+        args["reactions"], args["rules"] = args["reactions"][:1], args["rules"][:1]
+        args["initialize_model"] = True
+
+    def finish_edit(M):
+        if later is None:
+            return
+        M.py_initialize()
+        for rx in later["reactions"]:
+            M.create_reaction(*rx)
+        for ru in later["rules"]:
+            M.create_rule(*ru)
+        if initialized:
+            M.py_initialize()
     if kind == "lineage":
         L = interp.load("bioscrape.lineage")
         M = L.ns["LineageModel"](**args)
@@ -105,12 +122,14 @@ def model_job(interp, c, case):
         M.create_volume_event("linear volume", {"growth_rate": 0.1}, "massaction", {"k": 0.2, "species": "A"})
         M.create_division_event("division", {}, "massaction", {"k": 0.01, "species": "B"}, vs)
         M.create_death_event("death", {}, "hillpositive", {"k": 0.1, "K": 5.0, "n": 2, "s1": "C"})
+        finish_edit(M)
         if initialized:
             M.py_initialize()
     else:
         M = T.ns["Model"](**args)
-    tag = "%s model (%sinitialised)" % (kind, "" if initialized else "not ")
-    rp = {"kind": "model", "which": kind, "initialized": initialized}
+        finish_edit(M)
+    tag = "%s model (%sinitialised%s)" % (kind, "" if initialized else "not ", ", built in two stages around an initialisation" if edited else "")
+    rp = {"kind": "model", "which": kind, "initialized": initialized, "edited": bool(edited)}
     try:
         M2 = transport(interp, M)
     except Exception as e:
@@ -148,9 +167,11 @@ def model_job(interp, c, case):
             itf.apply_repeated_rules(ptr(interp, x), 0, 1)
             itf.compute_stochastic_propensities(ptr(interp, x), ptr(interp, d), 0)
             outs.append((list(x), list(d), m.params_values.copy()))
-        c.prove(s_and(*[a == b for a, b in zip(outs[0][0] + outs[0][1], outs[1][0] + outs[1][1])]),
-                "%s: rules and stochastic rates of the restored model equal the original's at every state" % tag,
-                info={"sig": "restored model behaves differently", "what": tag})
+        ok = c.prove(s_and(*[a == b for a, b in zip(outs[0][0] + outs[0][1], outs[1][0] + outs[1][1])]),
+                     "%s: rules and stochastic rates of the restored model equal the original's at every state" % tag,
+                     info={"sig": "restored model behaves differently", "what": tag})
+        if ok is False:
+            c.failures[-1]["replay"] = rp
 
 
 def term_job(interp, c, case):
@@ -260,6 +281,7 @@ def check(tier):
     for kind in ("plain", "lineage"):
         for init in (True, False):
             ck.add("model/%s/%s" % (kind, init), "harness.C17", "model_job", dict(cases=[(kind, init)]), fresh=True)
+            ck.add("model-edited/%s/%s" % (kind, init), "harness.C17", "model_job", dict(cases=[(kind, init, True)]), fresh=True)
     for cls in ("SumTerm", "ProductTerm", "MaxTerm", "MinTerm"):
         ck.add("term/%s" % cls, "harness.C17", "term_job", dict(cases=[(cls, 2), (cls, 4)]))
     for w in ("schnitz", "lineage", "explineage", "volumecell", "lineagecell", "inference"):
